@@ -1177,7 +1177,7 @@ class Assembler:
         if op.startswith(('(IX+', '(IX-', '(IY+', '(IY-')) and op.endswith(')'):
             offset = self.parse_byte(op[4:-1])
             if op[3] == '-':
-                return 256 - offset
+                return (256 - offset) % 256
             return offset
         raise ValueError
 
